@@ -666,6 +666,10 @@ func ruleC29(c *Ctx, r *Report) {
 		}
 		name := c.FuncName(fn)
 		userParam := fn.Params[1]
+		// the candidate loop may live in a private helper that is handed the comparison as a function literal
+		if d := hofDelegationOf(c, fn); d != nil && d.userIdx >= 0 {
+			fn, userParam = d.h, d.h.Params[d.userIdx]
+		}
 		// the list iterated
 		var lists []*ssa.Lookup
 		allInstrs(fn, func(in ssa.Instruction) {
@@ -1054,7 +1058,7 @@ func fromDecode(v ssa.Value, f *types.Var) bool {
 // dependsOn: the value v is computed (through conversions, slices, calls' arguments) from `leaf`.
 func dependsOn(v ssa.Value, leaf ssa.Value, depth int) bool {
 	v = stripValue(v)
-	if v == leaf || stripValue(resolveLoad(v)) == leaf {
+	if v == leaf || stripValue(resolveLoad(v)) == leaf || equivValue(v, leaf, 3) {
 		return true
 	}
 	if depth == 0 {
@@ -1134,6 +1138,77 @@ func ruleC30(c *Ctx, r *Report) {
 		name := c.FuncName(fn)
 		saltP, authP := ssa.Value(fn.Params[2]), ssa.Value(fn.Params[3])
 		isElem := func(v ssa.Value) bool { return elemOfMapSlice(v, fUsers) }
+		// higher-order form: `return u.helper(user, func(candidate string) bool {…})`. The loop obligations are decided
+		// on the helper (its test is the call of the function parameter on a list element), the comparison obligations
+		// on the literal (its candidate is the literal's parameter, salt and response are the captured parameters).
+		var hof *hofDelegation
+		if d := hofDelegationOf(c, fn); d != nil && d.userIdx >= 0 && len(d.lit.Params) == 1 {
+			hof = d
+		}
+		if hof != nil {
+			lit := hof.lit
+			isCand := func(v ssa.Value) bool { return stripValue(v) == ssa.Value(lit.Params[0]) }
+			asParam := func(v ssa.Value) ssa.Value { return hof.captured(v) }
+			var litTests []*ssa.Call
+			allInstrs(lit, func(in ssa.Instruction) {
+				call, ok := in.(*ssa.Call)
+				if !ok {
+					return
+				}
+				if sp.calc != nil {
+					if !isPkgFunc(&call.Call, "bytes", "Equal") || len(call.Call.Args) != 2 {
+						return
+					}
+					a, b := call.Call.Args[0], call.Call.Args[1]
+					if asParam(b) == authP {
+						a, b = b, a
+					}
+					cc, ok := stripValue(b).(*ssa.Call)
+					if asParam(a) != authP || !ok || !callsFunc(&cc.Call, sp.calc) || len(cc.Call.Args) != 2 {
+						return
+					}
+					if asParam(cc.Call.Args[0]) == saltP && derivedOnlyFrom(cc.Call.Args[1], isCand, 3) {
+						litTests = append(litTests, call)
+					}
+					return
+				}
+				if callsFunc(&call.Call, checkHash) && len(call.Call.Args) == 3 &&
+					asParam(call.Call.Args[0]) == authP && asParam(call.Call.Args[1]) == saltP && derivedOnlyFrom(call.Call.Args[2], isCand, 3) {
+					litTests = append(litTests, call)
+				}
+			})
+			isTest := func(v ssa.Value) bool {
+				for _, t := range litTests {
+					if stripValue(v) == ssa.Value(t) {
+						return true
+					}
+				}
+				return false
+			}
+			bad := trueImplies(lit, isTest)
+			if bad == "" && sp.calc == nil {
+				// the '*' prefix gate: every test is evaluated only behind it
+				for _, t := range litTests {
+					gated := false
+					allInstrs(lit, func(in ssa.Instruction) {
+						if g, ok := in.(*ssa.Call); ok && isStarGate(c, g, isCand) && dominatedByCond(t, g, true) {
+							gated = true
+						}
+					})
+					if !gated {
+						bad = "a candidate is tested as a stored SHA1 hash without having the '*' prefix (a clear-text password would be accepted as its own hash)"
+					}
+				}
+			}
+			if len(litTests) == 0 {
+				bad = "the function literal handed to " + hof.h.Name() + " contains no equality test between the response and the scramble of (salt, candidate)"
+			}
+			if bad == "" {
+				r.ok(rule, name, "accept:literal", c.Pos(lit.Pos()), "the comparison handed to "+hof.h.Name()+" answers true only as the result of the full equality test on its candidate")
+			} else {
+				r.viol(rule, name, "accept:literal", c.Pos(lit.Pos()), bad)
+			}
+		}
 		var elemOf func(v ssa.Value, depth int) bool
 		elemOf = func(v ssa.Value, depth int) bool {
 			v = stripValue(v)
@@ -1155,9 +1230,19 @@ func ruleC30(c *Ctx, r *Report) {
 		}
 		// accepting comparisons
 		var tests []*ssa.Call
+		if hof != nil {
+			fn = hof.h
+		}
 		allInstrs(fn, func(in ssa.Instruction) {
 			call, ok := in.(*ssa.Call)
 			if !ok {
+				return
+			}
+			if hof != nil {
+				// the helper's test: the function parameter applied to an element of users[user]
+				if !call.Call.IsInvoke() && stripValue(call.Call.Value) == ssa.Value(hof.h.Params[hof.litIdx]) && len(call.Call.Args) == 1 && isElem(call.Call.Args[0]) {
+					tests = append(tests, call)
+				}
 				return
 			}
 			if sp.calc != nil {
@@ -1208,12 +1293,12 @@ func ruleC30(c *Ctx, r *Report) {
 					good = true
 				}
 			}
-			if good && sp.calc == nil {
+			if good && sp.calc == nil && hof == nil {
 				// the '*' prefix gate
 				good = false
 				allInstrs(fn, func(in ssa.Instruction) {
 					call, ok := in.(*ssa.Call)
-					if ok && isPkgFunc(&call.Call, "strings", "HasPrefix") && isElem(call.Call.Args[0]) && dominatedByCond(ret, call, true) {
+					if ok && isStarGate(c, call, isElem) && dominatedByCond(ret, call, true) {
 						good = true
 					}
 				})
@@ -3665,4 +3750,289 @@ func escapeTable(c *Ctx, esc *ssa.Function, modeParam *ssa.Parameter) (table [2]
 		}
 	}
 	return table, true
+}
+
+// hofDelegation describes `func (u) Check(user, salt, auth) (bool, string) { return u.h(user, func(c string) bool {…}) }`.
+type hofDelegation struct {
+	fn      *ssa.Function // the exported check
+	h       *ssa.Function // package-private helper holding the candidate loop
+	call    *ssa.Call
+	lit     *ssa.Function // the function literal
+	mc      *ssa.MakeClosure
+	litIdx  int // index of the literal among h's parameters
+	userIdx int // index of h's parameter that receives fn's user parameter (-1: none)
+}
+
+// hofDelegationOf recognises the delegation: every return of fn hands back results #0,#1 of one call to a
+// package-private module function that receives a function literal of fn.
+func hofDelegationOf(c *Ctx, fn *ssa.Function) *hofDelegation {
+	rets := returnsOf(fn)
+	if len(rets) != 1 || len(fn.Params) < 2 {
+		return nil
+	}
+	v0, z0 := retValues(rets[0], 0)
+	v1, z1 := retValues(rets[0], 1)
+	if z0 || z1 || len(v0) != 1 || len(v1) != 1 {
+		return nil
+	}
+	e0, ok0 := stripValue(v0[0]).(*ssa.Extract)
+	e1, ok1 := stripValue(v1[0]).(*ssa.Extract)
+	if !ok0 || !ok1 || e0.Tuple != e1.Tuple || e0.Index != 0 || e1.Index != 1 {
+		return nil
+	}
+	call, ok := e0.Tuple.(*ssa.Call)
+	if !ok {
+		return nil
+	}
+	h := staticCallee(&call.Call)
+	if h == nil || !c.InModule(h) || len(h.Blocks) == 0 || h.Object() == nil || h.Object().Exported() {
+		return nil
+	}
+	d := &hofDelegation{fn: fn, h: h, call: call, litIdx: -1, userIdx: -1}
+	for k, a := range call.Call.Args {
+		if k >= len(h.Params) {
+			break
+		}
+		if mc, ok := stripValue(a).(*ssa.MakeClosure); ok {
+			if lit, _ := mc.Fn.(*ssa.Function); lit != nil && lit.Parent() == fn {
+				d.lit, d.mc, d.litIdx = lit, mc, k
+			}
+		}
+		if d.capturedIn(fn, a) == ssa.Value(fn.Params[1]) {
+			d.userIdx = k
+		}
+	}
+	if d.lit == nil {
+		return nil
+	}
+	return d
+}
+
+// capturedIn resolves v inside f to the parameter it is a copy of: the parameter itself, or a load of the cell a
+// captured parameter was spilled to (stored once, at entry, from the parameter).
+func (d *hofDelegation) capturedIn(f *ssa.Function, v ssa.Value) ssa.Value {
+	v = stripValue(v)
+	if u, ok := v.(*ssa.UnOp); ok && u.Op == token.MUL {
+		if cell, ok := u.X.(*ssa.Alloc); ok {
+			var stores []*ssa.Store
+			for _, ref := range *cell.Referrers() {
+				if st, ok := ref.(*ssa.Store); ok && st.Addr == ssa.Value(cell) {
+					stores = append(stores, st)
+				}
+			}
+			if len(stores) == 1 {
+				if p, ok := stores[0].Val.(*ssa.Parameter); ok {
+					return p
+				}
+			}
+		}
+	}
+	return v
+}
+
+// captured resolves a value inside the literal to fn's parameter it reads: *freevar whose binding is the cell fn's
+// parameter was spilled to (never stored again), or a freevar bound to the parameter itself.
+func (d *hofDelegation) captured(v ssa.Value) ssa.Value {
+	v = stripValue(v)
+	var fv *ssa.FreeVar
+	deref := false
+	switch x := v.(type) {
+	case *ssa.FreeVar:
+		fv = x
+	case *ssa.UnOp:
+		if x.Op == token.MUL {
+			fv, _ = x.X.(*ssa.FreeVar)
+			deref = true
+		}
+	}
+	if fv == nil {
+		return v
+	}
+	for i, f := range d.lit.FreeVars {
+		if f != fv || i >= len(d.mc.Bindings) {
+			continue
+		}
+		b := stripValue(d.mc.Bindings[i])
+		if !deref {
+			return b
+		}
+		cell, ok := b.(*ssa.Alloc)
+		if !ok {
+			return v
+		}
+		var stores []*ssa.Store
+		escapes := false
+		for _, ref := range *cell.Referrers() {
+			switch y := ref.(type) {
+			case *ssa.Store:
+				if y.Addr == ssa.Value(cell) {
+					stores = append(stores, y)
+				} else {
+					escapes = true
+				}
+			case *ssa.UnOp, *ssa.MakeClosure, *ssa.DebugRef:
+			default:
+				escapes = true
+			}
+		}
+		// the literal itself must not assign the captured variable
+		allInstrs(d.lit, func(in ssa.Instruction) {
+			if st, ok := in.(*ssa.Store); ok && st.Addr == ssa.Value(fv) {
+				escapes = true
+			}
+		})
+		if !escapes && len(stores) == 1 {
+			if p, ok := stores[0].Val.(*ssa.Parameter); ok {
+				return p
+			}
+		}
+	}
+	return v
+}
+
+// derivedOnlyFrom: v is base (accepted by isBase) possibly converted or sliced.
+func derivedOnlyFrom(v ssa.Value, isBase func(ssa.Value) bool, depth int) bool {
+	v = stripValue(v)
+	if isBase(v) {
+		return true
+	}
+	if depth == 0 {
+		return false
+	}
+	switch x := v.(type) {
+	case *ssa.Convert:
+		return derivedOnlyFrom(x.X, isBase, depth-1)
+	case *ssa.Slice:
+		return derivedOnlyFrom(x.X, isBase, depth-1)
+	case *ssa.ChangeType:
+		return derivedOnlyFrom(x.X, isBase, depth-1)
+	}
+	return false
+}
+
+// trueImplies decides that a bool function answers true only as the value of an atom (isAtom) or on a path dominated by
+// an atom's true edge; "" when it does, otherwise what is wrong.
+func trueImplies(f *ssa.Function, isAtom func(v ssa.Value) bool) string {
+	var atoms []ssa.Value
+	allInstrs(f, func(in ssa.Instruction) {
+		if v, ok := in.(ssa.Value); ok && isAtom(v) {
+			atoms = append(atoms, v)
+		}
+	})
+	underAtom := func(b *ssa.BasicBlock) bool {
+		for _, a := range atoms {
+			var es []CondEdge
+			for _, e := range condEdges(a) {
+				if e.Val {
+					es = append(es, e)
+				}
+			}
+			if len(es) > 0 && edgesDominate(f, es, b) {
+				return true
+			}
+		}
+		return false
+	}
+	bad := ""
+	seen := map[ssa.Value]bool{}
+	var walk func(v ssa.Value, at *ssa.BasicBlock)
+	walk = func(v ssa.Value, at *ssa.BasicBlock) {
+		v = stripValue(v)
+		if isAtom(v) {
+			return
+		}
+		if b, ok := constBool(v); ok {
+			if b && !underAtom(at) {
+				bad = "true is answered on a path on which the full equality test did not succeed"
+			}
+			return
+		}
+		if underAtom(at) {
+			return
+		}
+		switch x := v.(type) {
+		case *ssa.Phi:
+			if seen[x] {
+				return
+			}
+			seen[x] = true
+			for i, e := range x.Edges {
+				walk(e, x.Block().Preds[i])
+			}
+			return
+		case *ssa.UnOp:
+			if x.Op == token.MUL {
+				if cell, ok := x.X.(*ssa.Alloc); ok {
+					if sts, _, ok := reachingStores(cell, x); ok && len(sts) > 0 {
+						for _, st := range sts {
+							walk(st.Val, st.Block())
+						}
+						return
+					}
+				}
+			}
+		}
+		bad = "the answer is computed from something other than the full equality test between the response and the scramble of (salt, candidate)"
+	}
+	for _, ret := range returnsOf(f) {
+		if len(ret.Results) > 0 {
+			walk(ret.Results[0], ret.Block())
+		}
+	}
+	return bad
+}
+
+// isStarGate: the call tests that its candidate argument starts with '*': strings.HasPrefix(cand, "*"), or a
+// package-private bool helper of one string parameter that answers true only under such a test (HasPrefix or
+// param[0] == '*') on its parameter.
+func isStarGate(c *Ctx, call *ssa.Call, isCand func(v ssa.Value) bool) bool {
+	f := staticCallee(&call.Call)
+	if f == nil {
+		return false
+	}
+	star := func(v ssa.Value) bool {
+		if s, ok := constString(v); ok {
+			return s == "*"
+		}
+		return false
+	}
+	if f.Pkg != nil && f.Pkg.Pkg.Path() == "strings" && f.Name() == "HasPrefix" && len(call.Call.Args) == 2 {
+		return isCand(call.Call.Args[0]) && star(call.Call.Args[1])
+	}
+	if !c.InModule(f) || len(f.Blocks) == 0 || len(f.Params) != 1 || len(call.Call.Args) != 1 || !isCand(call.Call.Args[0]) || f.Signature.Results().Len() != 1 {
+		return false
+	}
+	p := ssa.Value(f.Params[0])
+	atom := func(v ssa.Value) bool {
+		switch x := v.(type) {
+		case *ssa.Call:
+			g := staticCallee(&x.Call)
+			return g != nil && g.Pkg != nil && g.Pkg.Pkg.Path() == "strings" && g.Name() == "HasPrefix" && len(x.Call.Args) == 2 && stripValue(x.Call.Args[0]) == p && star(x.Call.Args[1])
+		case *ssa.BinOp:
+			if x.Op != token.EQL {
+				return false
+			}
+			a, b := stripValue(x.X), stripValue(x.Y)
+			if _, isC := a.(*ssa.Const); isC {
+				a, b = b, a
+			}
+			var base, index ssa.Value
+			switch lk := a.(type) {
+			case *ssa.Lookup:
+				base, index = lk.X, lk.Index
+			case *ssa.Index:
+				base, index = lk.X, lk.Index
+			default:
+				return false
+			}
+			if stripValue(base) != p {
+				return false
+			}
+			i, ok1 := constInt(index)
+			k, ok2 := constInt(b)
+			return ok1 && ok2 && i == 0 && k == '*'
+		}
+		return false
+	}
+	return trueImplies(f, atom) == ""
 }
